@@ -1,7 +1,7 @@
 #!/bin/bash
 # usage: try_mutant.sh <patch.diff> <tier> <Cnn> [Cnn...]
 # Applies a seeded change to /repo, runs the named checks, and ALWAYS restores /repo.
-PATCH="$1"; TIER="$2"; shift 2
+PATCH="$(readlink -f "$1")"; TIER="$2"; shift 2
 cd /repo || exit 2
 if ! git diff --quiet; then echo "/repo is not clean"; exit 2; fi
 git apply "$PATCH" || { echo "patch does not apply"; exit 2; }
